@@ -227,8 +227,12 @@ func randomWalk(r *common.Rng, n, nops, steps int, latePersist bool, epilogue bo
 		}
 		x := r.Intn(100)
 		switch {
-		case x < 4 && nops > 0:
+		case x < 4 && nops > 0 && !latePersist:
 			// a batch of committed entries applied back to back
+			if p.pending {
+				emit(i, "p")
+				p.pending = false
+			}
 			emit(i, fmt.Sprintf("B%d", r.Range(1, nops)))
 		case x < 52:
 			if p.pending && !latePersist {
